@@ -428,9 +428,12 @@ class Table(Vector):
 						f"(sanitizes to '{sanitized}'), not '{base_name}'"
 					)
 				
-				# Replace the column at validated index
+				# Replace the column at validated index (with a snapshot of the
+				# caller's vector: the table must not share it with the caller)
 				if not isinstance(value, Vector):
 					value = Vector(value)
+				else:
+					value = value.copy()
 				
 				if self._underlying and len(value) != self._length:
 					raise ValueError(
@@ -447,9 +450,12 @@ class Table(Vector):
 			# Regular column lookup by name
 			col_idx = self._column_map.get(attr) or self._column_map.get(attr.lower())
 			if col_idx is not None:
-				# Replace the column in _underlying
+				# Replace the column in _underlying (with a snapshot of the caller's
+				# vector: the table must not share it with the caller)
 				if not isinstance(value, Vector):
 					value = Vector(value)
+				else:
+					value = value.copy()
 				
 				# Validate length
 				if self._underlying and len(value) != self._length:
